@@ -190,6 +190,14 @@ func init() {
 				}
 				judgeEqual(c, jp.Equal, "", aT, bT, "malformed")
 			}},
+			{Name: "padded-root-scalars", Count: n(20000, 400000), Run: func(c *core.Ctx, idx int) {
+				// both texts are scalars at the root with whitespace around them, of equal and of different length
+				sc := []string{"1", "2", "10", "-1", "1.0", "1e2", "true", "null", "false", `"a"`, `"b"`, `"ab"`, `"1"`, `""`, "1234", `"abc"`, "0", "7"}
+				ws := []string{"", " ", "\n", "  ", "\t ", " \r\n"}
+				a := ws[c.R.Intn(len(ws))] + sc[c.R.Intn(len(sc))] + ws[c.R.Intn(len(ws))]
+				b := ws[c.R.Intn(len(ws))] + sc[c.R.Intn(len(sc))] + ws[c.R.Intn(len(ws))]
+				judgeEqual(c, jp.Equal, "", a, b, "padded-root-scalars")
+			}},
 			{Name: "duplicate-names", Count: n(20000, 400000), Run: func(c *core.Ctx, idx int) {
 				// objects that repeat a member name: what they denote is not compared, but symmetry and
 				// reflexivity must hold; b is a itself respelled, a with its duplicates removed, or a
